@@ -313,6 +313,20 @@ def main():
     L.append("def observer_lock_counts : List Nat := [%s]" % ", ".join(str(len(re.findall(r'acquire_internal\(', (fn_bodies(macro_shared, f) or [""])[0]))) for f in obs))
     sdrop_n = len(re.findall(r'acquire_internal\(', sdrop)); rdrop_n = len(re.findall(r'acquire_internal\(', rdrop))
     L.append("def future_drop_lock_counts : List Nat := [%d, %d]" % (sdrop_n, rdrop_n))
+    # every function of lib.rs that takes the channel lock, directly or by calling a lock-taking method on self:
+    # total number of lock sections it is composed of (an observer composed of two observers is not one snapshot)
+    allf = []
+    for m in re.finditer(r"\bfn\s+(\w+)\s*(<[^>]*>)?\s*\(", lib):
+        i = lib.find("{", m.end()); semi = lib.find(";", m.end())
+        if i < 0 or (0 <= semi < i): continue
+        allf.append((m.group(1), lib[i:match_brace(lib, i)]))
+    locking = {n for n, b in allf if re.search(r"acquire_internal\(", b)}
+    tot = [(n, len(re.findall(r"acquire_internal\(", b)) + len([c for c in re.findall(r"self\.(\w+)\(", b) if c in locking])) for n, b in allf]
+    tot = [(n, k) for n, k in tot if k > 0]
+    timed3 = ("send_timeout", "send_option_timeout", "recv_timeout")
+    L.append("/-- lock sections (own acquisitions + calls of lock-taking methods on self) of every lock-taking fn of lib.rs except the timed calls: " + ", ".join(n for n, k in tot if n not in timed3) + " -/")
+    L.append("def api_lock_totals : List Nat := [%s]" % ", ".join(str(k) for n, k in tot if n not in timed3))
+    L.append("def api_lock_totals_timed : List Nat := [%s]" % ", ".join(str(k) for n, k in tot if n in timed3))
     reacq = [f for f in order if re.search(r"drop\(internal\)[^}]*\binternal\s*=\s*acquire_internal", all_fns.get(f, ""), re.S)]
     emit_nat("reacquire_after_release_sites", len(reacq))
 
